@@ -67,6 +67,12 @@ func init() {
 					cs = append(cs, ev.MkCase("batch", c06Batch{Kind: k, InSession: in, Seed: seed}))
 				}
 			}
+			for f := 0; f < 240; f += 40 {
+				cs = append(cs, ev.MkCase("batch", c06Batch{Kind: "jumps", From: f, To: f + 40, InSession: true, Seed: seed}))
+			}
+			for i := 0; i < 12; i++ {
+				cs = append(cs, ev.MkCase("batch", c06Batch{Kind: "interleave", InSession: true, Seed: seed + int64(i)}))
+			}
 			cs = append(cs, ev.MkCase("batch", c06Batch{Kind: "handshakes", Seed: seed}))
 			cs = append(cs, ev.MkCase("batch", c06Batch{Kind: "reneg", Seed: seed}))
 			n := 1
@@ -93,6 +99,7 @@ func init() {
 
 type c06Conn struct {
 	b    *refbmc.BMC
+	sl   bmc.Connection // the session-less connection underneath (conn is the session when in is set)
 	conn bmc.Connection
 	cur  *genCmd
 	in   bool
@@ -154,7 +161,7 @@ func c06Open(run *ev.Run, b c06Batch, cs ev.Case) *c06Conn {
 		}
 		return 0, c.cur.OkBody, true
 	}
-	c.conn = st
+	c.conn, c.sl = st, st
 	if b.PreHandshake > 0 {
 		// the connection has been through a handshake before the session-less commands under test
 		ctx, cancel := bg(10 * time.Second)
@@ -340,6 +347,37 @@ func c06Exec(run *ev.Run, cs ev.Case) {
 							}
 						}
 					}
+				}
+			}
+		}
+		return
+	}
+	if b.Kind == "jumps" {
+		// the first large request of a session: a fresh connection per length, so that the request is
+		// far larger than anything the connection has carried (handshake included), optionally after
+		// a few small ones
+		for l := b.From; l < b.To; l++ {
+			for v, k := range []string{"raw-normal", "raw-group", "raw-oem"} {
+				c := c06Open(run, c06Batch{Kind: "jumps", InSession: true, Seed: b.Seed + int64(l*3+v)}, cs)
+				if c == nil {
+					return
+				}
+				r := rng(b.Seed+int64(l), "c06jump"+k)
+				ok := true
+				for i := 0; ok && i < (l+v)%3; i++ {
+					ok = c.send(run, genCommand(r, []string{"devid", "sensorreading", "getsdr"}[i], 0), cs)
+				}
+				if ok {
+					g := genCommand(r, k, l)
+					if ok = c.send(run, g, cs); ok {
+						run.Nontrivial(fmt.Sprintf("jump|%s|%d", k, l))
+						// and the same size again, then a second jump
+						ok = c.send(run, genCommand(r, k, l), cs) && c.send(run, genCommand(r, k, l+80+(l%17)), cs)
+					}
+				}
+				c.done()
+				if !ok {
+					return
 				}
 			}
 		}
@@ -593,6 +631,26 @@ func c06Exec(run *ev.Run, cs ev.Case) {
 				if !do(genCommand(r, k, l), fmt.Sprintf("%s/%d", k, l%16)) {
 					return
 				}
+			}
+		}
+	case "interleave":
+		// one connection used both ways: session-less commands (the body-less ones repeated) between
+		// in-session commands; each datagram must be what that call asked for, in the wrapper that
+		// call's kind of connection uses
+		sess := c.conn
+		slKinds := []string{"guid", "guid", "authcaps", "guid", "ciphersuites", "dcmicap", "guid"}
+		inKinds := []string{"devid", "chassisstatus", "raw-normal", "guid", "repoinfo", "sensorreading", "raw-oem", "reserve"}
+		for i := 0; i < 60; i++ {
+			var g genCmd
+			if (i+int(b.Seed))%3 == 0 || i%7 == 6 {
+				c.conn, c.in = sess, true
+				g = genCommand(r, inKinds[r.Intn(len(inKinds))], r.Intn(40))
+			} else {
+				c.conn, c.in = c.sl, false
+				g = genCommand(r, slKinds[(i+int(b.Seed))%len(slKinds)], 0)
+			}
+			if !do(g, fmt.Sprintf("interleave|%v", c.in)) {
+				return
 			}
 		}
 	case "random":
